@@ -1,9 +1,15 @@
-"""Self-test of the stylesheet oracles: N generated stylesheets x options through the harness,
-every check, and a table classification -> count with one example each.
+"""Self-test of the stylesheet generator + oracles.
 
-  GE_CSS_HARNESS=/tmp/harness_css/target/debug/geharness python3 -m checklib.css_selftest [N] [seed]
+  GE_CSS_HARNESS=/tmp/harness_css/target/debug/geharness python3 -m checklib.css_selftest [N] [seed] [--no-shrink]
 
-(without GE_CSS_HARNESS the regular harness binary is used; it must know the `css` op)
+* N generated stylesheets x generated options (plus N/4 mutated ones, C01 only) go through the
+  harness `css` op; every check runs; a table classification -> count is printed, with one
+  (shrunk) example input per classification.
+* fault injection: for cases on which every check holds, the output is damaged (a span of
+  non-blank characters deleted, re-tokenised through the harness) and the checks must notice;
+  checking with other options than the ones used (prefix, ratio) must be noticed too.
+
+Without GE_CSS_HARNESS the regular harness binary (`geharness run`) is used; it must know `css`.
 """
 import json, os, sys, time
 
@@ -11,24 +17,137 @@ sys.path.insert(0, os.path.dirname(os.path.dirname(os.path.abspath(__file__))))
 from checklib import core, cssgen, cssoracle  # noqa: E402
 
 
-def harness_bin():
-    return os.environ.get("GE_CSS_HARNESS") or core.HARNESS_BIN
+def harness_cmd():
+    b = os.environ.get("GE_CSS_HARNESS")
+    if b:
+        return b, []
+    return core.HARNESS_BIN, ["run"]
 
 
 def run_css(cases):
     """cases: [(opts dict, css text)] -> [decoded answer]"""
+    if not cases:
+        return []
     lines = [core.req("css", json.dumps(o), s) for o, s in cases]
-    b = harness_bin()
-    args = ["run"] if os.path.basename(os.path.dirname(os.path.dirname(os.path.dirname(b)))) == "verif" or b == core.HARNESS_BIN else []
+    b, args = harness_cmd()
     rc, out, err = core.run_lines(b, args, lines)
     if rc != 0 or len(out) != len(lines):
         raise core.BrokenTie("harness-run", "rc=%s answers=%d/%d %s" % (rc, len(out), len(lines), err[-2000:]))
     return [json.loads(l) for l in out]
 
 
+def classes_of(opts, res, well_formed=True):
+    """{(prop, classification): first problem}"""
+    probs = cssoracle.run_all(opts, res) if well_formed else {"C01": cssoracle.check_c01(opts, res)}
+    found = {}
+    for pid, ps in probs.items():
+        for p in ps:
+            found.setdefault((pid, p["classification"]), p)
+    return found
+
+
+def is_well_formed(res):
+    """brackets balanced, no bad-string / bad-url / stray closer tokens in the input"""
+    ti = res.get("tokens_in", "")
+    if any(("(" + k + " ") in ti for k in ("badstr", "badurl", "closeparen", "closesquare", "closecurly")):
+        return False
+    return all(c[4] for c in res.get("closers_in", []))
+
+
+def shrink(opts, css, key, well_formed, budget=1500):
+    """delta-debugging on characters: smallest input (found) that still shows classification `key`
+    (and is still well-formed, if the original was)"""
+    cur = css
+    size = max(1, len(cur) // 2)
+    used = 0
+    while size >= 1 and used < budget:
+        cands = []
+        i = 0
+        while i < len(cur):
+            cands.append(cur[:i] + cur[i + size:])
+            i += size
+        cands = [c for c in cands if c != cur]
+        # smaller first; one harness batch per round
+        answers = run_css([(opts, c) for c in cands])
+        used += len(cands)
+        hit = None
+        for c, res in zip(cands, answers):
+            if well_formed and not is_well_formed(res):
+                continue
+            if key in classes_of(opts, res, well_formed):
+                hit = c
+                break
+        if hit is not None:
+            cur = hit
+            size = min(size, max(1, len(cur) // 2))
+        else:
+            size //= 2
+    return cur
+
+
+def fault_injection(clean, rng):
+    """clean: [(opts, css, res)] on which every check holds"""
+    stats = dict(damaged=0, damaged_caught=0, opts=0, opts_caught=0, missed=[])
+    # 1. damaged outputs
+    jobs = []
+    for o, s, res in clean:
+        out = res["normal"]
+        idx = [i for i, c in enumerate(out) if not c.isspace()]
+        if not idx:
+            continue
+        i = idx[rng.below(len(idx))]
+        j = i + 1 + rng.below(3)
+        bad = out[:i] + out[j:]
+        if bad == out:
+            continue
+        jobs.append((o, s, res, bad, (i, j)))
+    retok = run_css([({}, bad) for _, _, _, bad, _ in jobs])
+    for (o, s, res, bad, span), rt in zip(jobs, retok):
+        if "panic" in rt:
+            continue
+        r2 = {k: v for k, v in res.items() if not k.startswith("_")}
+        r2["normal"] = bad
+        r2["tokens_normal"] = rt["tokens_in"]
+        r2["closers_normal"] = rt["closers_in"]
+        found = classes_of(o, r2)
+        stats["damaged"] += 1
+        if any(k[0] in ("C08", "C09", "C10", "C17", "C18") for k in found):
+            stats["damaged_caught"] += 1
+        else:
+            stats["missed"].append(dict(opts=o, css=s, output=res["normal"], damaged=bad, span=span, found=sorted(found)))
+    # 2. checking against other options than the ones the output was made with
+    for o, s, res in clean:
+        r2 = {k: v for k, v in res.items() if not k.startswith("_")}
+        has_class = '(delim "." ' in res["tokens_in"]
+        has_rpx = '"rpx" ' in res["tokens_in"]
+        if has_rpx:
+            o2 = dict(o, rpx_ratio=o["rpx_ratio"] * 2)
+            stats["opts"] += 1
+            found = classes_of(o2, dict(r2))
+            if any(k == ("C10", "rpx-wrong") for k in found):
+                stats["opts_caught"] += 1
+            else:
+                stats["missed"].append(dict(opts=o, check_opts=o2, css=s, found=sorted(found)))
+        if has_class and "selector" in "selector":
+            o2 = dict(o, class_prefix=(o["class_prefix"] or "") + "zz")
+            found = classes_of(o2, dict(r2))
+            # only meaningful if a class selector (not `.5` or `a.b` in a value) exists: judged by C09 speaking up
+            an = cssoracle.analyze(o2, dict(r2))
+            n_class = sum(1 for e in cssoracle._walk_e(an.exp_n) if e.role == "class")
+            if n_class:
+                stats["opts"] += 1
+                if any(k[0] == "C09" for k in found):
+                    stats["opts_caught"] += 1
+                else:
+                    stats["missed"].append(dict(opts=o, check_opts=o2, css=s, found=sorted(found)))
+    return stats
+
+
 def main():
-    n = int(sys.argv[1]) if len(sys.argv) > 1 else 2000
-    seed = int(sys.argv[2]) if len(sys.argv) > 2 else 20260929
+    args = [a for a in sys.argv[1:] if not a.startswith("--")]
+    do_shrink = "--no-shrink" not in sys.argv
+    n = int(args[0]) if len(args) > 0 else 2000
+    seed = int(args[1]) if len(args) > 1 else 20260929
     rng = core.SplitMix64(seed)
     t0 = time.time()
     cases = []
@@ -45,12 +164,12 @@ def main():
     answers = run_css([(o, s) for o, s, _, _ in cases])
     t2 = time.time()
     table = {}
-    clean = 0
+    clean = []
+    not_wf = 0
     for (o, s, i, kind), res in zip(cases, answers):
-        if kind == "mut":
-            probs = {"C01": cssoracle.check_c01(o, res)}
-        else:
-            probs = cssoracle.run_all(o, res)
+        if kind == "wf" and not is_well_formed(res):
+            not_wf += 1
+        probs = {"C01": cssoracle.check_c01(o, res)} if kind == "mut" else cssoracle.run_all(o, res)
         any_p = False
         for pid, ps in probs.items():
             for p in ps:
@@ -60,27 +179,42 @@ def main():
                 e["count"] += 1
                 e["cases"].add((kind, i))
                 if e["example"] is None or len(s) < len(e["example"][1]):
-                    e["example"] = (o, s, p)
-        if not any_p:
-            clean += 1
+                    e["example"] = (o, s, p, kind)
+        if not any_p and kind == "wf":
+            clean.append((o, s, res))
     t3 = time.time()
-    print("stylesheets: %d well-formed + %d mutated; clean cases: %d" % (n, nm, clean))
-    print("generate %.2fs  harness %.2fs (%.0f sheets/s)  oracles %.2fs (%.0f sheets/s)  total %.0f sheets/s"
+    print("stylesheets: %d well-formed + %d mutated; generator produced %d inputs that are not well-formed; "
+          "well-formed cases on which every check holds: %d" % (n, nm, not_wf, len(clean)))
+    print("generate %.2fs  harness %.2fs (%.0f sheets/s)  oracles %.2fs (%.0f sheets/s)  end-to-end %.0f sheets/s"
           % (t1 - t0, t2 - t1, len(cases) / max(1e-9, t2 - t1), t3 - t2, len(cases) / max(1e-9, t3 - t2),
              len(cases) / max(1e-9, t3 - t0)))
-    print("%-5s %-78s %7s %6s" % ("prop", "classification", "count", "cases"))
-    for (pid, cls), e in sorted(table.items()):
-        print("%-5s %-78s %7d %6d" % (pid, cls, e["count"], len(e["cases"])))
+    fi = fault_injection(clean[:400], rng.fork("fault"))
+    print("fault injection: damaged outputs noticed %d/%d; wrong-options noticed %d/%d"
+          % (fi["damaged_caught"], fi["damaged"], fi["opts_caught"], fi["opts"]))
+    for m in fi["missed"][:5]:
+        print("   MISSED: %s" % json.dumps(m, ensure_ascii=False)[:1500])
     print()
+    print("%-5s %-82s %7s %6s" % ("prop", "classification", "count", "cases"))
     for (pid, cls), e in sorted(table.items()):
-        o, s, p = e["example"]
+        print("%-5s %-82s %7d %6d" % (pid, cls, e["count"], len(e["cases"])))
+    print()
+    t4 = time.time()
+    for (pid, cls), e in sorted(table.items()):
+        o, s, p, kind = e["example"]
+        if do_shrink:
+            s2 = shrink(o, s, (pid, cls), kind == "wf")
+            res = run_css([(o, s2)])[0]
+            p = classes_of(o, res, kind == "wf").get((pid, cls), p)
+            s = s2
         print("== %s %s" % (pid, cls))
         print("   what:    %s" % p["what"])
-        for k in ("at", "expected", "got", "context", "excerpt"):
+        for k in ("at", "expected", "got", "context"):
             if p.get(k) is not None:
                 print("   %-8s %s" % (k + ":", json.dumps(p[k], ensure_ascii=False) if not isinstance(p[k], str) else p[k].replace("\n", "\\n")))
         print("   opts:    %s" % json.dumps(o, ensure_ascii=False))
-        print("   css:     %s" % json.dumps(s if len(s) < 400 else s[:400] + "…", ensure_ascii=False))
+        print("   css:     %s" % json.dumps(s if len(s) < 600 else s[:600] + "…", ensure_ascii=False))
+    if do_shrink:
+        print("(examples shrunk in %.1fs)" % (time.time() - t4))
     return 0
 
 
